@@ -165,7 +165,9 @@ func (g *c20Gen) frame(depth int, root bool) *c20Frame {
 		}
 	}
 	if g.ch.Int(0, 9, "reverted") < revertP {
-		e := "execution reverted"
+		// the callTracer reports any VM failure of a frame in its "error" field, a revert is only one of them
+		e := choose.Pick(g.ch, []string{"execution reverted", "execution reverted", "out of gas", "invalid opcode: INVALID", "stack limit reached 1024 (1023)",
+			"write protection", "invalid jump destination", "max code size exceeded", "contract creation code storage out of gas", "x"}, "frameError")
 		f.Error = &e
 		f.reverted = true
 	}
